@@ -35,11 +35,20 @@ def build_world(name, data, tier, rnd):
             match(["v", "id"], "==", "1"), match(["v", "x"], "==", "1"), match(["v", "V"], "==", "2"), match(["v", "0"], "==", "1"),
             match(["v", "X"], "==", "1"), match(["v", "name"], "==", "n1"), match(["v", "Secret"], "==", "s3cr3t"),
             match(["v"], "in", "a"), match(["v"], "empty"), match(["k"], "matches", "^[a-z]$"), match(["top"], "==", "5")]
+    if name == "records":
+        # inner quantifiers rooted at the outer binding, re-using its name or not
+        def coll(op, path, mode, n1, n2, e):
+            return {"t": "coll", "op": op, "sel": {"ty": "bexpr", "path": path}, "mode": mode, "n1": n1, "n2": n2, "e": e, "val": "", "hv": False}
+        body += [coll("any", ["v", "tags"], "default", "v", "", match(["v"], "==", "b")), coll("any", ["v", "tags"], "default", "t", "", match(["t"], "==", "b")),
+                 coll("all", ["v", "attr"], "both", "k", "v", match(["v"], "!=", "zz")), coll("any", ["v"], "value", "", "v", match(["v"], "==", "2")),
+                 coll("any", ["v", "tags"], "both", "k", "v", {"t": "and", "l": match(["v"], "==", "b"), "r": match(["k"], "==", "1"), "val": "", "hv": False, "mode": "", "n1": "", "n2": ""})]
     b0 = len(atoms)
     atoms += body
     colls = []
     cpaths = [k for k in keys if len(k) <= 2]
     rnd.shuffle(cpaths)
+    if name == "records":
+        cpaths = [("recs",), ("grid",)] + [k for k in cpaths if k not in (("recs",), ("grid",))]
     for key in cpaths[: (3 if quick else 10)]:
         for op in ("any", "all"):
             for mode, n1, n2 in (("default", "v", ""), ("index", "k", ""), ("value", "", "v"), ("both", "k", "v")):
